@@ -192,7 +192,7 @@ CHECKS["C09"] = {
     "technique": "generated-input search with a deterministic step budget as termination oracle (prefix/sequence enumeration, skeleton and mutation fuzzing, recursive-family enumeration)",
     "text": "(a) every prefix of generated sources, every short sequence of block/branch/end tags, random block skeletons with misplaced branch tags and missing end tags, mutated sources, token soup and pumped lexeme fragments must parse to a template or a LiquidError within a line-event budget linear in the source length (counted with sys.monitoring over liquid/ code); (b) families of 1-3 mutually recursive templates (include, render, render-for, include-for, dynamic include, extends cycles, macro self-call, block.super chains) with the recursive edge under 0..30 nested blocks of 8 kinds must finish within 3e6 line events: with ContextDepthError / TemplateInheritanceError in strict mode (never RecursionError, never a generic error wrapping one), silently in lax mode.",
     "design_ref": "DESIGN.md §4 C09",
-    "note": "Termination is observed as 'within budget', never proved. A hang is turned into a budget overrun (the callback raises), so the check itself always finishes. Known finding: in lax mode a template that calls itself twice per level does 2^30 renders.",
+    "note": "Termination is observed as 'within budget', never proved. A hang is turned into a budget overrun (the callback raises), so the check itself always finishes.",
 }
 
 CHECKS["C20"] = {
